@@ -4,7 +4,8 @@ C09 model — self-healing of the manager, at the level of "who moves it out of 
 State = the manager's state name, whether descriptors / a facade / a spa with a running ping loop exist, and whether
 the sequence pump is alive.  Inputs are macro steps whose durations are bounded by theorems of other properties
 (a discovery: C15; a request with retries: C06; the block transfer: C01): one iteration of the pump under a healthy or a
-dead network, a ping outcome, an RF error, retry exhaustion, a user reset (possibly landing inside `_connect`).
+dead network, a ping outcome, an RF error, retry exhaustion (reported by the live spa or by an attempt a reset has abandoned),
+a user reset (possibly landing inside `_connect`).
 Which states the pump acts in, which states a received ping resets from, where each failure event lands and whether the
 pump survives exceptions are GENERATED facts (`Generated/RecoveryFacts.lean`).
 -/
@@ -69,7 +70,8 @@ def step (s : R) : In → R
   | .ping true => if s.spaAlive && pingResetStates.contains s.st then resetR s else s
   | .ping false => if s.spaAlive && s.st == "CONNECTED" then { s with st := stateOnPingNoResponse } else s
   | .rfErr => if s.spaAlive && s.st == "CONNECTED" then { s with st := stateOnRfError } else s
-  | .retryExceeded => if s.spaAlive then { s with st := stateOnRetryExceeded } else s
+  -- a retry-exceeded report: from the live spa, or (spaAlive = false) from a connection attempt that a reset has abandoned
+  | .retryExceeded => if s.spaAlive || !retryExceededNeedsSpa then { s with st := stateOnRetryExceeded } else s
   | .userReset inConnect => { resetR s with pump := s.pump && (!inConnect || pumpCatchesExceptions) }
   | .resetInLocate => if s.pump then locateR s true else resetR s
 
